@@ -108,7 +108,7 @@ MODEL = dict(
              invariants=["NoViolation", "Refines"]),
         # predecessor chains: U0p needs the external operation E executed first
         dict(name="pred", module="MC_TimelockController",
-             constants=dict(_c, SchedOps={"E", "U0p"}, DPreds={"none", "E"}, Delays={0}, Min0=0, DTs={0}, Depth=4),
+             constants=dict(_c, SchedOps={"E", "U0p"}, DPreds={"none", "E"}, Delays={0}, Min0=0, DTs={0}, ChkCtxs={"ext"}, Depth=4),
              thorough=dict(Depth=5, DTs={0, 1}),
              invariants=["NoViolation", "Refines"]),
         # vacuity guard: the pinned code (contexts zipped with descriptors, no length check)
